@@ -46,6 +46,7 @@ import YtkProofs.GapPipelineData
 import YtkProofs.GapPipelinePatch
 import YtkProofs.GapPatchFrame
 import YtkProofs.TplFuncs
+import YtkProofs.OpsExt
 
 namespace Ytk.C13
 
@@ -1935,4 +1936,531 @@ theorem nonvacuous_tf_mergeFiles :
       [Mod.mkChange "x" ⟨"int", "2"⟩ ⟨"int", "1"⟩] := by decide +kernel
 
 end tplfuncs
+end Ytk.C13
+
+/-! ## Operations with an environment: ExecOp, TemplateFileOp, Html2DomOp, ValOrRef decoding
+
+  Definitions: `YtkModel/OpsExt.lean` (namespace `Ytk.OpsExt`), the functions the driver op
+  `opsExt` executes.  The operating system (`ExecOS`: opening the output files, running the
+  process), the template engine (`TplEngine`), the file system (`TplFS`), the HTML library
+  (`HtmlLib`) and `RenderLenient` (`lenient`) are parameters: every theorem holds for ALL of them.
+  Each docstring names the Go operation the theorem is about. -/
+
+namespace Ytk.C13
+open Ytk.PD Ytk.OpsExt
+
+section opsExt
+
+/-! ### (*ExecOp).Do — pipeline/exec_op.go -/
+
+/-- ExecOp.Do — "SaveExitCodeTo: path within the global data where to set exit code": when the
+    output files open and the process ends with an exit error, what Lookup finds at the path
+    afterwards is the exit code as an int leaf — whether or not that code is valid (the code is
+    stored BEFORE the validity check). -/
+theorem exec_stores_exit_code (lenient : String → String) (os : ExecOS) (e : ExecSpec) (data : AMap Node)
+    (p : String) (code : Int) (out err : List Nat) (ho : execOpens lenient os e)
+    (hr : execCall lenient os e = .exitError code out err) (hs : e.saveExitCodeTo = some p) (hp : p ≠ "") :
+    (execOp lenient os e data).data = addValueAt data p (exitCodeLeaf code) ∧
+      lookup (execOp lenient os e data).data p = some (.leaf ⟨"int", toString code⟩) ∧
+      (execOp lenient os e data).ran = true := by
+  have hd : (execOp lenient os e data).data = addValueAt data p (exitCodeLeaf code) := by
+    rw [execOp_of_opens lenient os e data ho, hr]
+    simp only [hs]
+  refine ⟨hd, ?_, ?_⟩
+  · rw [hd]; exact lookup_addValueAt_self' _ _ hp
+  · rw [execOp_of_opens lenient os e data ho, hr]
+
+/-- ExecOp.Do — "ValidExitCodes: list of exit codes that are assumed to be valid": an exit error
+    is an error of the operation exactly when its code is not in the list; a nil list is the
+    empty list (no non-zero exit code is valid). -/
+theorem exec_exit_code_validity (lenient : String → String) (os : ExecOS) (e : ExecSpec) (data : AMap Node)
+    (code : Int) (out err : List Nat) (ho : execOpens lenient os e)
+    (hr : execCall lenient os e = .exitError code out err) :
+    (execOp lenient os e data).err = !((e.validExitCodes.getD []).contains code) := by
+  rw [execOp_of_opens lenient os e data ho, hr]
+
+/-- ExecOp.Do: an exit code outside a non-empty valid list is an error (and still stored, see
+    `exec_stores_exit_code`). -/
+theorem exec_invalid_exit_code_is_error (lenient : String → String) (os : ExecOS) (e : ExecSpec) (data : AMap Node)
+    (valid : List Int) (code : Int) (out err : List Nat) (ho : execOpens lenient os e)
+    (hv : e.validExitCodes = some valid) (hn : code ∉ valid)
+    (hr : execCall lenient os e = .exitError code out err) :
+    (execOp lenient os e data).err = true := by
+  rw [exec_exit_code_validity lenient os e data code out err ho hr, hv]
+  simp [hn]
+
+/-- ExecOp.Do: nil and empty ValidExitCodes are the same operation. -/
+theorem exec_nil_valid_is_empty (lenient : String → String) (os : ExecOS) (e : ExecSpec) (data : AMap Node) :
+    execOp lenient os { e with validExitCodes := none } data =
+      execOp lenient os { e with validExitCodes := some [] } data := rfl
+
+/-- ExecOp.Do: a process that exits with status 0 is never an error, whatever ValidExitCodes
+    holds, and its exit code is NOT stored: the data is untouched. -/
+theorem exec_status_zero (lenient : String → String) (os : ExecOS) (e : ExecSpec) (data : AMap Node)
+    (out err : List Nat) (ho : execOpens lenient os e) (hr : execCall lenient os e = .success out err) :
+    (execOp lenient os e data).err = false ∧ (execOp lenient os e data).data = data ∧
+      (execOp lenient os e data).files = execFiles (e.stdout.map lenient) (e.stderr.map lenient) out err := by
+  rw [execOp_of_opens lenient os e data ho, hr]
+  exact ⟨rfl, rfl, rfl⟩
+
+/-- ExecOp.Do: a program that cannot be started is an error; the data is untouched and the
+    output files stay behind empty. -/
+theorem exec_start_failure (lenient : String → String) (os : ExecOS) (e : ExecSpec) (data : AMap Node)
+    (ho : execOpens lenient os e) (hr : execCall lenient os e = .startFail) :
+    (execOp lenient os e data).err = true ∧ (execOp lenient os e data).data = data ∧
+      (execOp lenient os e data).ran = false ∧
+      ∀ f ∈ (execOp lenient os e data).files, f.2 = [] := by
+  rw [execOp_of_opens lenient os e data ho, hr]
+  refine ⟨rfl, rfl, rfl, ?_⟩
+  intro f hf
+  simp only [execFiles, List.mem_append, List.mem_map] at hf
+  rcases hf with ⟨_, _, rfl⟩ | ⟨_, _, rfl⟩ <;> rfl
+
+/-- ExecOp.Do: an output file that cannot be opened is an ERROR (not a panic): the process is
+    not run, nothing is logged, the data is untouched. -/
+theorem exec_open_failure (lenient : String → String) (os : ExecOS) (e : ExecSpec) (data : AMap Node)
+    (h : (∃ p, e.stdout = some p ∧ os.canOpen (lenient p) = false) ∨
+         (∃ p, e.stderr = some p ∧ os.canOpen (lenient p) = false)) :
+    (execOp lenient os e data).err = true ∧ (execOp lenient os e data).data = data ∧
+      (execOp lenient os e data).ran = false ∧ (execOp lenient os e data).log = [] :=
+  execOp_of_not_opens lenient os e data h
+
+/-- ExecOp.Do: the files hold what the process wrote, stdout's first. -/
+theorem exec_files_hold_output (lenient : String → String) (os : ExecOS) (e : ExecSpec) (data : AMap Node)
+    (code : Int) (out err : List Nat) (ho : execOpens lenient os e)
+    (hr : execCall lenient os e = .exitError code out err) :
+    (execOp lenient os e data).files =
+      (e.stdout.toList.map fun p => (lenient p, out)) ++ (e.stderr.toList.map fun p => (lenient p, err)) := by
+  rw [execOp_of_opens lenient os e data ho, hr]
+  simp only [execFiles]
+  cases e.stdout <;> cases e.stderr <;> rfl
+
+/-- ExecOp.Do: an unset SaveExitCodeTo leaves the data unchanged — for every operating system
+    and every outcome. -/
+theorem exec_unset_save_unchanged (lenient : String → String) (os : ExecOS) (e : ExecSpec) (data : AMap Node)
+    (hs : e.saveExitCodeTo = none) : (execOp lenient os e data).data = data := by
+  rcases execOp_data lenient os e data with h | ⟨p, _, hp, _⟩
+  · exact h
+  · rw [hs] at hp; cases hp
+
+/-- ExecOp.Do, frame at full strength: for every operating system and every outcome, the data
+    afterwards differs from the data before at most at SaveExitCodeTo — every path that is not
+    under it and not on the way to it finds the same node (or a freshly padded `null` slot). -/
+theorem exec_frame (lenient : String → String) (os : ExecOS) (e : ExecSpec) (data : AMap Node) (p q : String)
+    (hs : e.saveExitCodeTo = some p) (hf : Fits data (splitPath p))
+    (h1 : ¬ pathSteps (splitPath p) <+: pathSteps (splitPath q))
+    (h2 : ¬ pathSteps (splitPath q) <+: pathSteps (splitPath p)) :
+    FrameAt data (execOp lenient os e data).data q := by
+  rcases execOp_data lenient os e data with h | ⟨p', code, hp, h⟩
+  · rw [h]; exact FrameAt.refl _ _
+  · rw [hs] at hp; cases hp
+    rw [h]; exact frameAt_addValueAt_steps data _ q _ hf h1 h2
+
+/-- ExecOp.Do, frame without `Fits`, for paths that part at two different keys or indices. -/
+theorem exec_frame_diverge (lenient : String → String) (os : ExecOS) (e : ExecSpec) (data : AMap Node)
+    (p q : String) (hs : e.saveExitCodeTo = some p) (h : DivergeIdx (splitPath p) (splitPath q)) :
+    FrameAt data (execOp lenient os e data).data q := by
+  rcases execOp_data lenient os e data with h' | ⟨p', code, hp, h'⟩
+  · rw [h']; exact FrameAt.refl _ _
+  · rw [hs] at hp; cases hp
+    rw [h']; exact frameAt_addValueAt_diverge data _ q _ h
+
+/-- non-vacuity (ExecOp.Do): `sh -c "exit 3"` with ValidExitCodes [3], stdout into a file and
+    SaveExitCodeTo `res.rc` on `{a: 1}` — no error, the code is stored, `a` is untouched; with
+    ValidExitCodes [4] the same run is an error and the code is stored all the same; exit status 0
+    stores nothing. -/
+theorem nonvacuous_exec :
+    let os3 : ExecOS := ⟨fun _ => true, fun _ _ _ => .exitError 3 [111] []⟩
+    let os0 : ExecOS := ⟨fun _ => true, fun _ _ _ => .success [111] []⟩
+    let e : ExecSpec := ⟨"sh", some ["-c", "exit 3"], "", some [3], some "/t/out", none, some "res.rc"⟩
+    let data : AMap Node := [("a", .leaf ⟨"int", "1"⟩)]
+    (execOp id os3 e data).err = false ∧
+    lookup (execOp id os3 e data).data "res.rc" = some (.leaf ⟨"int", "3"⟩) ∧
+    lookup (execOp id os3 e data).data "a" = some (.leaf ⟨"int", "1"⟩) ∧
+    (execOp id os3 e data).files = [("/t/out", [111])] ∧
+    (execOp id os3 e data).log = [["prog=sh,dir=,args=[-c exit 3]"]] ∧
+    (execOp id os3 { e with validExitCodes := some [4] } data).err = true ∧
+    lookup (execOp id os3 { e with validExitCodes := some [4] } data).data "res.rc" = some (.leaf ⟨"int", "3"⟩) ∧
+    (execOp id os0 e data).data = data ∧ (execOp id os0 e data).err = false := by
+  decide
+
+/-! ### (*TemplateFileOp).Do — pipeline/template_file_op.go -/
+
+/-- TemplateFileOp.Do never changes the data document — for every engine, file system and
+    configuration. -/
+theorem templateFile_data_unchanged (te : TplEngine) (fs : TplFS) (t : TemplateFileSpec) (data : AMap Node) :
+    (templateFileOp te fs t data).data = data := templateFileOp_data te fs t data
+
+/-- TemplateFileOp.Do — "Output is path to output file": success means exactly that the scope
+    (the root, or the container at Path) exists, the template file was read, its content rendered
+    against the scope, and the file named by the rendered Output holds that rendering. -/
+theorem templateFile_written_is_rendering (te : TplEngine) (fs : TplFS) (t : TemplateFileSpec) (data : AMap Node) :
+    (templateFileOp te fs t data).err = false ↔
+      t.file ≠ "" ∧ t.output ≠ "" ∧ ∃ sc tmpl val, tplScope t data = some sc ∧
+        fs.readFile (te.lenient sc t.file) = some tmpl ∧ te.render sc tmpl = some val ∧
+        fs.canWrite (te.lenient sc t.output) = true ∧
+        (templateFileOp te fs t data).written = some (te.lenient sc t.output, val) := by
+  by_cases hf : t.file = ""
+  · simp [templateFileOp, hf]
+  by_cases ho : t.output = ""
+  · simp [templateFileOp, hf, ho]
+  rw [templateFileOp_eq te fs t data hf ho]
+  cases hsc : tplScope t data with
+  | none => simp [hf, ho]
+  | some sc =>
+    cases hr : fs.readFile (te.lenient sc t.file) with
+    | none => simp [hf, ho, hr]
+    | some tmpl =>
+      cases hv : te.render sc tmpl with
+      | none => simp [hf, ho, hr, hv]
+      | some val =>
+        by_cases hw : fs.canWrite (te.lenient sc t.output) = true
+        · simp [hf, ho, hr, hv, hw]
+        · simp [hf, ho, hr, hv, hw]
+
+/-- TemplateFileOp.Do: an error writes nothing (in particular a template that fails to render
+    returns before the output file is touched), success writes exactly one file. -/
+theorem templateFile_err_iff_nothing_written (te : TplEngine) (fs : TplFS) (t : TemplateFileSpec) (data : AMap Node) :
+    (templateFileOp te fs t data).err = (templateFileOp te fs t data).written.isNone := by
+  simp only [templateFileOp]
+  split
+  · rfl
+  · split
+    · rfl
+    · split
+      · rfl
+      · split
+        · rfl
+        · split
+          · rfl
+          · split <;> rfl
+
+/-- TemplateFileOp.Do: a template that fails to render is an error and nothing is written. -/
+theorem templateFile_render_error (te : TplEngine) (fs : TplFS) (t : TemplateFileSpec) (data sc : AMap Node)
+    (tmpl : String) (hf : t.file ≠ "") (ho : t.output ≠ "") (hsc : tplScope t data = some sc)
+    (hr : fs.readFile (te.lenient sc t.file) = some tmpl) (hv : te.render sc tmpl = none) :
+    (templateFileOp te fs t data).err = true ∧ (templateFileOp te fs t data).written = none := by
+  rw [templateFileOp_eq te fs t data hf ho, hsc]
+  simp [hr, hv]
+
+/-- TemplateFileOp.Do — "Path … (must be container). When omitted, then root of global data is
+    assumed": the scope is the root without a Path, the container found at Path otherwise, and
+    anything else there (nothing, a leaf, a list) is an error before any file is touched. -/
+theorem templateFile_scope (te : TplEngine) (fs : TplFS) (t : TemplateFileSpec) (data : AMap Node) :
+    (t.path = none → tplScope t data = some data) ∧
+    (∀ p c, t.path = some p → lookup data p = some (.cont c) → tplScope t data = some c) ∧
+    (tplScope t data = none →
+      (templateFileOp te fs t data).err = true ∧ (templateFileOp te fs t data).log = []) := by
+  refine ⟨?_, ?_, ?_⟩
+  · intro h; simp [tplScope, h]
+  · intro p c h hl; simp [tplScope, h, hl]
+  · intro h
+    by_cases hf : t.file = ""
+    · simp [templateFileOp, hf]
+    by_cases ho : t.output = ""
+    · simp [templateFileOp, hf, ho]
+    rw [templateFileOp_eq te fs t data hf ho, h]
+    exact ⟨rfl, rfl⟩
+
+/-- TemplateFileOp.Do: an empty File or Output is an error; nothing is read, written or logged. -/
+theorem templateFile_arg_errors (te : TplEngine) (fs : TplFS) (t : TemplateFileSpec) (data : AMap Node)
+    (h : t.file = "" ∨ t.output = "") :
+    templateFileOp te fs t data = ⟨true, data, none, []⟩ := by
+  rcases h with h | h
+  · simp [templateFileOp, h]
+  · by_cases hf : t.file = ""
+    · simp [templateFileOp, hf]
+    · simp [templateFileOp, hf, h]
+
+/-- non-vacuity (TemplateFileOp.Do): the template file `/t/in` holds `T`, the engine renders `T`
+    against the container at `sub` to `R`; the output `/t/out` then holds `R` and the data is as
+    before; the same operation with a Path to a leaf is an error. -/
+theorem nonvacuous_templateFile :
+    let data : AMap Node := [("sub", .cont [("x", .leaf ⟨"int", "1"⟩)]), ("z", .leaf ⟨"string", "s"⟩)]
+    let te : TplEngine := ⟨fun sc s => if sc = [("x", .leaf ⟨"int", "1"⟩)] ∧ s = "T" then some "R" else none, fun _ s => s⟩
+    let fs : TplFS := ⟨fun f => if f = "/t/in" then some "T" else none, fun _ => true⟩
+    (templateFileOp te fs ⟨"/t/in", "/t/out", some "sub"⟩ data).err = false ∧
+    (templateFileOp te fs ⟨"/t/in", "/t/out", some "sub"⟩ data).data = data ∧
+    (templateFileOp te fs ⟨"/t/in", "/t/out", some "sub"⟩ data).written = some ("/t/out", "R") ∧
+    (templateFileOp te fs ⟨"/t/in", "/t/out", some "sub"⟩ data).log =
+      [["reading template file", "/t/in"], ["writing rendered template", "/t/out"]] ∧
+    (templateFileOp te fs ⟨"/t/in", "/t/out", some "z"⟩ data).err = true ∧
+    (templateFileOp te fs ⟨"/t/in", "/t/out", none⟩ data).written = none := by
+  decide
+
+/-! ### convertHtmlNode2Dom and (*Html2DomOp).Do — pipeline/html2dom.go -/
+
+/-- convertHtmlNode2Dom: only element and text nodes do anything — a document node (what
+    `htmlquery.Parse` returns), comments, doctypes and blank text leave the container as it is. -/
+theorem html_ignored_nodes (cb : AMap Node) (cs : List HtmlNode) (d : String) (hb : isBlank d = true) :
+    convert cb (.document cs) = cb ∧ convert cb .other = cb ∧ convert cb (.text d) = cb := by
+  refine ⟨by simp [convert], by simp [convert], ?_⟩
+  simp [convert, hb]
+
+/-- convertHtmlNode2Dom — "Value leaf for every text node": a text node that is not blank is
+    stored under `Value` UNTRIMMED (the trimmed text only decides whether it is stored). -/
+theorem html_text_stored_untrimmed (cb : AMap Node) (d : String) (hb : isBlank d = false) :
+    AMap.get? (convert cb (.text d)) "Value" = some (.leaf ⟨"string", d⟩) := by
+  rw [convert_text]; simp [hb, AMap.get?_insert_self]
+
+/-- convertHtmlNode2Dom: with several text nodes below one element, `Value` is the LAST one that
+    is not blank (each overwrites the one before). -/
+theorem html_value_is_last_text (attrs : List (String × String)) (cs : List HtmlNode)
+    (hp : PlainKids cs) (hn : NoKidNamed "Value" cs) :
+    AMap.get? (elemBody attrs cs) "Value" = (lastText cs).map fun d => .leaf ⟨"string", d⟩ := by
+  unfold elemBody
+  rw [get?_convertChildren_Value cs _ hp hn]
+  cases lastText cs with
+  | some d => rfl
+  | none =>
+    cases attrs with
+    | nil => rfl
+    | cons a as =>
+      simp only [elemStart, add_of_noSuffix _ _ noSuffix_Attrs, Option.map_none]
+      rw [AMap.get?_insert_ne _ _ (by decide)]
+      rfl
+
+/-- convertHtmlNode2Dom — "Child elements are collected into the list, if their name appears
+    multiple times within the parent, otherwise they are regular child node": under a name `t`
+    the element finds nothing when no child element is named `t`, the child's own container when
+    there is exactly one, and otherwise a list with ONE ITEM PER CHILD ELEMENT named `t`, IN
+    DOCUMENT ORDER (`bodiesOf`: the containers built for those children, recursively). -/
+theorem html_children_by_name (attrs : List (String × String)) (cs : List HtmlNode) (t : String)
+    (hp : PlainKids cs) (ht : t ≠ "Value") (ha : t ≠ "Attrs") :
+    AMap.get? (elemBody attrs cs) t =
+      match bodiesOf t cs with
+      | [] => none
+      | [b] => some b
+      | b1 :: b2 :: rest => some (.list (b1 :: b2 :: rest)) := by
+  unfold elemBody
+  rw [get?_convertChildren t ht cs _ hp]
+  have hstart : AMap.get? (elemStart attrs) t = none := by
+    cases attrs with
+    | nil => rfl
+    | cons a as =>
+      simp only [elemStart, add_of_noSuffix _ _ noSuffix_Attrs]
+      rw [AMap.get?_insert_ne _ _ ha]
+      rfl
+  rw [hstart]
+  exact collect_none _ (bodiesOf_cont t cs)
+
+/-- convertHtmlNode2Dom: the list under a repeated name has as many items as there are child
+    elements of that name. -/
+theorem html_one_item_per_child (attrs : List (String × String)) (cs : List HtmlNode) (t : String)
+    (hp : PlainKids cs) (ht : t ≠ "Value") (ha : t ≠ "Attrs") (h2 : 2 ≤ (bodiesOf t cs).length) :
+    AMap.get? (elemBody attrs cs) t = some (.list (bodiesOf t cs)) := by
+  rw [html_children_by_name attrs cs t hp ht ha]
+  match hb : bodiesOf t cs, h2 with
+  | b1 :: b2 :: rest, _ => rfl
+
+/-- convertHtmlNode2Dom — "Attributes of element are put into container node Attrs": the
+    element's container holds `Attrs` exactly when it has attributes, and `Attrs` read by name
+    gives the value of the last attribute of that name as a string leaf (nothing for other names). -/
+theorem html_attrs_preserved (attrs : List (String × String)) (cs : List HtmlNode)
+    (hp : PlainKids cs) (hn : NoKidNamed "Attrs" cs) (hk : ∀ p ∈ attrs, hasIdxSuffix p.1 = false) :
+    AMap.get? (elemBody attrs cs) "Attrs" =
+      (if attrs = [] then none else some (.cont (attrsCont [] attrs))) ∧
+    ∀ k, AMap.get? (attrsCont [] attrs) k = (lastAttr k attrs).map fun v => .leaf ⟨"string", v⟩ := by
+  constructor
+  · unfold elemBody
+    rw [get?_convertChildren "Attrs" (by decide) cs _ hp, bodiesOf_nil_of_noKid "Attrs" cs hn]
+    cases attrs with
+    | nil => rfl
+    | cons a as =>
+      simp only [collect, elemStart, add_of_noSuffix _ _ noSuffix_Attrs, AMap.get?_insert_self]
+      simp
+  · intro k
+    rw [get?_attrsCont k attrs [] hk]
+    cases lastAttr k attrs <;> rfl
+
+/-- convertHtmlNode2Dom: with distinct attribute names every attribute is found with its value,
+    and no other name is. -/
+theorem html_attrs_distinct (attrs : List (String × String))
+    (hk : ∀ p ∈ attrs, hasIdxSuffix p.1 = false) (hd : (attrs.map (·.1)).Nodup) :
+    (∀ k v, (k, v) ∈ attrs → AMap.get? (attrsCont [] attrs) k = some (.leaf ⟨"string", v⟩)) ∧
+    (∀ k, k ∉ attrs.map (·.1) → AMap.get? (attrsCont [] attrs) k = none) := by
+  constructor
+  · intro k v hm
+    rw [get?_attrsCont k attrs [] hk, lastAttr_of_mem_nodup attrs hd hm]
+  · intro k hm
+    rw [get?_attrsCont k attrs [] hk, lastAttr_none_of_not_mem attrs hm]
+    rfl
+
+/-- convertHtmlNode2Dom: whatever the tree (tags and attribute names with index groups
+    included), every container it builds is constructible through the API: keys sorted and
+    unique, none ending in an index group. -/
+theorem html_convert_valid (n : HtmlNode) (cb : AMap Node) (h : (Node.cont cb).Valid) :
+    (Node.cont (convert cb n)).Valid := convert_valid n cb h
+
+/-- Html2DomOp.Do: success is ONE AddValueAt, at the rendered To, of a container converted from
+    an HTML node; From and To were non-empty. -/
+theorem html2dom_ok_addValueAt (lenient : String → String) (lib : HtmlLib) (x : Html2DomSpec) (data d : AMap Node)
+    (h : html2domOp lenient lib x data = .ok d) :
+    lenient x.from_ ≠ "" ∧ lenient x.to ≠ "" ∧
+      ∃ n, d = addValueAt data (lenient x.to) (.cont (convert [] n)) ∧
+        lookup d (lenient x.to) = some (.cont (convert [] n)) := by
+  obtain ⟨hf, ht, n, hd⟩ := html2domOp_ok lenient lib x data d h
+  exact ⟨hf, ht, n, hd, by rw [hd]; exact lookup_addValueAt_self' _ _ ht⟩
+
+/-- Html2DomOp.Do, frame: every path not under the rendered To and not on the way to it finds
+    the same node afterwards (or a freshly padded `null` slot). -/
+theorem html2dom_frame (lenient : String → String) (lib : HtmlLib) (x : Html2DomSpec) (data d : AMap Node)
+    (q : String) (h : html2domOp lenient lib x data = .ok d) (hf : Fits data (splitPath (lenient x.to)))
+    (h1 : ¬ pathSteps (splitPath (lenient x.to)) <+: pathSteps (splitPath q))
+    (h2 : ¬ pathSteps (splitPath q) <+: pathSteps (splitPath (lenient x.to))) :
+    FrameAt data d q := by
+  obtain ⟨_, _, n, hd⟩ := html2domOp_ok lenient lib x data d h
+  rw [hd]; exact frameAt_addValueAt_steps data _ q _ hf h1 h2
+
+theorem html2dom_frame_diverge (lenient : String → String) (lib : HtmlLib) (x : Html2DomSpec) (data d : AMap Node)
+    (q : String) (h : html2domOp lenient lib x data = .ok d)
+    (hdv : DivergeIdx (splitPath (lenient x.to)) (splitPath q)) : FrameAt data d q := by
+  obtain ⟨_, _, n, hd⟩ := html2domOp_ok lenient lib x data d h
+  rw [hd]; exact frameAt_addValueAt_diverge data _ q _ hdv
+
+/-- Html2DomOp.Do as the code is: WITHOUT a Query the node handed to the layout function is the
+    document node `htmlquery.Parse` returns, for which convertHtmlNode2Dom does nothing — an EMPTY
+    container is stored at To, whatever the HTML source is.  (The field documentation says "when
+    omitted, then whole document is used".) -/
+theorem html2dom_without_query_stores_empty (lenient : String → String) (lib : HtmlLib) (x : Html2DomSpec)
+    (data d : AMap Node) (hq : x.query = none) (hdoc : ∀ s, ∃ cs, lib.parse s = .document cs)
+    (h : html2domOp lenient lib x data = .ok d) :
+    d = addValueAt data (lenient x.to) (.cont []) := by
+  simp only [html2domOp, hq] at h
+  split at h
+  · cases h
+  · split at h
+    · cases h
+    · split at h
+      · rename_i v _
+        split at h
+        · cases h
+        · split at h
+          · cases h
+          · obtain ⟨cs, hcs⟩ := hdoc v.text
+            simp only [hcs, convert] at h
+            cases h
+            rfl
+      · cases h
+
+/-- Html2DomOp.Do: argument errors — an empty (rendered) From or To, nothing or a non-leaf at
+    From, an unknown layout — are errors; a leaf at From that does not hold a string is a PANIC
+    (`Value().(string)`). -/
+theorem html2dom_argument_outcomes (lenient : String → String) (lib : HtmlLib) (x : Html2DomSpec) (data : AMap Node) :
+    (lenient x.from_ = "" ∨ lenient x.to = "" → html2domOp lenient lib x data = .err) ∧
+    (lenient x.from_ ≠ "" → lenient x.to ≠ "" →
+      (∀ v, lookup data (lenient x.from_) = some (.leaf v) → v.ty ≠ "string" →
+        html2domOp lenient lib x data = .panic) ∧
+      ((∀ v, lookup data (lenient x.from_) ≠ some (.leaf v)) → html2domOp lenient lib x data = .err) ∧
+      (∀ v l, lookup data (lenient x.from_) = some (.leaf v) → v.ty = "string" → x.layout = some l →
+        l ≠ "default" → html2domOp lenient lib x data = .err)) := by
+  refine ⟨?_, ?_⟩
+  · rintro (h | h)
+    · simp [html2domOp, h]
+    · by_cases hf : lenient x.from_ = ""
+      · simp [html2domOp, hf]
+      · simp [html2domOp, hf, h]
+  · intro hf ht
+    refine ⟨?_, ?_, ?_⟩
+    · intro v hl hty
+      simp [html2domOp, hf, ht, hl, hty]
+    · intro hno
+      simp only [html2domOp, if_neg hf, if_neg ht]
+    · intro v l hl hty hlay hne
+      simp [html2domOp, hf, ht, hl, hty, hlay, hne]
+
+/-- non-vacuity (convertHtmlNode2Dom): `<div id="x">hi<p>a</p><!-- c --><p class="k"> </p><b>t</b> bye </div>`
+    gives Attrs {id: x}, Value " bye " (the last text, untrimmed), `p` a list of two containers in
+    document order, `b` a regular child. -/
+theorem nonvacuous_html :
+    convert [] (.elem "div" [("id", "x")]
+      [.text "hi", .elem "p" [] [.text "a"], .other, .elem "p" [("class", "k")] [.text " "],
+       .elem "b" [] [.text "t"], .text " bye "]) =
+    [("div", .cont [
+      ("Attrs", .cont [("id", .leaf ⟨"string", "x"⟩)]),
+      ("Value", .leaf ⟨"string", " bye "⟩),
+      ("b", .cont [("Value", .leaf ⟨"string", "t"⟩)]),
+      ("p", .list [.cont [("Value", .leaf ⟨"string", "a"⟩)],
+                   .cont [("Attrs", .cont [("class", .leaf ⟨"string", "k"⟩)])]])])] := by
+  decide
+
+/-- the names the layout writes are the package constants of pipeline/html2dom.go (regenerated
+    from the source on every run) -/
+theorem html_constants_match_source :
+    Generated.consts.lookup "pipeline.AttributeNode" = some "Attrs" ∧
+    Generated.consts.lookup "pipeline.ValueNode" = some "Value" ∧
+    Generated.consts.lookup "pipeline.Html2DomLayoutDefault" = some "default" := by
+  decide
+
+/-! ### (*ValOrRef).UnmarshalYAML, (*AnyVal).UnmarshalYAML — pipeline/types.go -/
+
+/-- ValOrRef.UnmarshalYAML on a fresh value: the result is exactly one of the two — a reference
+    (from a mapping whose `ref` is a string; no value) or an immediate value (from a scalar: its
+    text; no reference). -/
+theorem valOrRef_decodes_to_exactly_one (y : YIn) (v : ValOrRef) (h : vorUnmarshal vorZero y = .ok v) :
+    (v.isRef = true ∧ v.val = "" ∧ y = .mapping (.str v.ref)) ∨
+    (v.isRef = false ∧ v.ref = "" ∧ y = .scalar v.val) := by
+  cases y with
+  | scalar t => simp only [vorUnmarshal] at h; cases h; exact Or.inr ⟨rfl, rfl, rfl⟩
+  | mapping r =>
+    cases r with
+    | absent => cases h
+    | str s => simp only [vorUnmarshal] at h; cases h; exact Or.inl ⟨rfl, rfl, rfl⟩
+    | nonString => cases h
+  | otherKind => cases h
+
+/-- ValOrRef.UnmarshalYAML, outcome by node kind: a mapping without `ref`, a sequence or any
+    other kind is an error; a mapping whose `ref` is not a string PANICS (`x.(string)`); a scalar
+    and a mapping with a string `ref` succeed — whatever state the receiver is in. -/
+theorem valOrRef_outcomes (pv : ValOrRef) :
+    vorUnmarshal pv (.mapping .absent) = .err ∧ vorUnmarshal pv .otherKind = .err ∧
+    vorUnmarshal pv (.mapping .nonString) = .panic ∧
+    (∀ s, vorUnmarshal pv (.mapping (.str s)) = .ok ⟨true, s, pv.val⟩) ∧
+    (∀ t, vorUnmarshal pv (.scalar t) = .ok ⟨pv.isRef, pv.ref, t⟩) :=
+  ⟨rfl, rfl, rfl, fun _ => rfl, fun _ => rfl⟩
+
+/-- ValOrRef.UnmarshalYAML on a used receiver: once a reference, always a reference (a scalar
+    decoded afterwards sets Val and leaves isRef and Ref alone). -/
+theorem valOrRef_reference_is_sticky (pv v : ValOrRef) (y : YIn) (h : vorUnmarshal pv y = .ok v)
+    (hr : pv.isRef = true) : v.isRef = true := by
+  cases y with
+  | scalar t => simp only [vorUnmarshal] at h; cases h; exact hr
+  | mapping r =>
+    cases r with
+    | absent => cases h
+    | str s => simp only [vorUnmarshal] at h; cases h; rfl
+    | nonString => cases h
+  | otherKind => cases h
+
+/-- ValOrRef has no MarshalYAML; what yaml.v3 writes through reflection (the exported fields
+    `ref` and `val`) decodes back to the same value exactly for references without a value: an
+    immediate value comes back as a reference to its (empty) Ref. -/
+theorem valOrRef_default_marshal_roundtrip_iff (v : ValOrRef) :
+    vorUnmarshal vorZero (vorMarshalDefault v) = .ok v ↔ v.isRef = true ∧ v.val = "" := by
+  obtain ⟨r, f, s⟩ := v
+  simp only [vorMarshalDefault, vorUnmarshal, vorZero]
+  constructor
+  · intro h; cases h; exact ⟨rfl, rfl⟩
+  · rintro ⟨h1, h2⟩
+    change r = true at h1
+    change s = "" at h2
+    subst h1; subst h2; rfl
+
+/-- AnyVal.UnmarshalYAML: the value has the kind of the YAML node — a scalar gives a string
+    leaf holding its text, a sequence a list of the same length, a mapping a container. -/
+theorem anyVal_kind (n : YNode) :
+    (∀ s, n = .scalar s → anyValUnmarshal n = .leaf ⟨"string", s⟩) ∧
+    (∀ xs, n = .seq xs → ∃ ys, anyValUnmarshal n = .list ys ∧ ys.length = xs.length) ∧
+    (∀ kvs, n = .map kvs → ∃ c, anyValUnmarshal n = .cont c) := by
+  refine ⟨?_, ?_, ?_⟩
+  · rintro s rfl; simp [anyValUnmarshal, decodeYamlNode]
+  · rintro xs rfl
+    refine ⟨decodeYamlSeq xs, by simp [anyValUnmarshal, decodeYamlNode], ?_⟩
+    induction xs with
+    | nil => simp [decodeYamlSeq]
+    | cons x xs ih => simp [decodeYamlSeq, ih]
+  · rintro kvs rfl; exact ⟨decodeYamlMap kvs [], by simp [anyValUnmarshal, decodeYamlNode]⟩
+
+end opsExt
+
 end Ytk.C13
